@@ -220,6 +220,11 @@ fn run_set<S: PS>(ctx: &Ctx) -> Acc {
             *b = if i < p.omega { (i % 256) as u8 } else { p.omega as u8 };
         }
         verify_storm::<S>(&mut acc, "hint-ascending-all-in-first", &hpk, &m, &cx, &s);
+        for (ai, y) in gen::ascending_hint_sections(&mut g, p).into_iter().enumerate() {
+            let mut s2 = s.clone();
+            s2[off..].copy_from_slice(&y);
+            verify_storm::<S>(&mut acc, &format!("hint-ascending-whole-section-{ai}"), &hpk, &m, &cx, &s2);
+        }
         verify_storm::<S>(&mut acc, "sig-all-zero", &hpk, &m, &cx, &vec![0u8; p.sig_len]);
         verify_storm::<S>(&mut acc, "sig-all-ff", &hpk, &m, &cx, &vec![0xFFu8; p.sig_len]);
 
